@@ -32,6 +32,11 @@ def R1_case_split(run):
         zero = any(o == "Eq" and is_param(x, "liquidity_delta") and const_val(y) == 0 and "LiquidityZero" in (at.true_codes | at.false_codes)
                    for at in A.atoms(fn) for (op, a, b) in fail_conditions(at) for (o, x, y) in ((op, a, b), (A.SWAP[op], b, a)))
         run.check("R1", "zero-delta@" + short, zero, "%s no longer rejects liquidity_delta == 0 with LiquidityZero" % path, loc=fn.loc(), detail="delta == 0 => LiquidityZero")
+        # ... and refuses nothing else by a test of its own: every usable tick - MIN and MAX included - is priced by the one conversion
+        # function, and the other errors are those of the amount primitives
+        other = sorted({c_ for at in A.atoms(fn) for c_ in ((at.true_codes if at.true_fail else set()) | (at.false_codes if at.false_fail else set()))} - {"LiquidityZero"})
+        run.check("R1", "no-other-refusal@" + short, not other, "%s refuses inputs on a test of its own with %s; the two packagings must value every tick the position validation accepted" % (path, other),
+                  loc=fn.loc(), detail="own failing tests: delta == 0 only")
         a_lo = a_up = None
         for at in A.atoms(fn):
             c = at.cond()
